@@ -178,39 +178,230 @@ theorem mapM_checkField_spec {fs : List FieldDecl} {args : List FieldArg} {sel :
   obtain ⟨h1, h2⟩ := mapM_ok_get _ _ _ h
   exact ⟨h1, fun i a f ha hf => checkField_ok_name (h2 i a f ha hf)⟩
 
+/-! ## more on `mapM` in `Except` -/
+
+theorem mapM_ok_mem {α β ε : Type} (f : α → Except ε β) (l : List α) (r : List β)
+    (h : l.mapM f = .ok r) : ∀ b ∈ r, ∃ a ∈ l, f a = .ok b := by
+  obtain ⟨hlen, hget⟩ := mapM_ok_get f l r h
+  intro b hb
+  obtain ⟨i, hi, hib⟩ := List.mem_iff_getElem.mp hb
+  have hi' : i < l.length := by omega
+  refine ⟨l[i], List.getElem_mem hi', hget i l[i] b ?_ ?_⟩
+  · exact List.getElem?_eq_getElem hi'
+  · rw [List.getElem?_eq_getElem hi, hib]
+
+/-- the first failing element decides the error -/
+theorem mapM_error_first {α β ε : Type} (f : α → Except ε β) (pre : List α) (a : α) (post : List α) (e : ε)
+    (hpre : ∀ x ∈ pre, ∃ b, f x = .ok b) (ha : f a = .error e) :
+    (pre ++ a :: post).mapM f = .error e := by
+  induction pre with
+  | nil => rw [List.nil_append, List.mapM_cons, ha]; rfl
+  | cons x rest ih =>
+    obtain ⟨b, hb⟩ := hpre x (List.mem_cons_self ..)
+    rw [List.cons_append, List.mapM_cons, hb, ih (fun y hy => hpre y (List.mem_cons_of_mem _ hy))]
+    rfl
+
+/-! ## `structField` -/
+
+theorem structField_ok_iff {fs : List FieldDecl} {a : FieldArg} {f : FieldDecl} :
+    structField fs a = .ok f ↔ checkField fs a = .ok f ∧ f.hidden = false := by
+  simp only [structField]
+  cases hc : checkField fs a with
+  | error e => simp
+  | ok g =>
+    simp only []
+    cases hh : g.hidden with
+    | true =>
+      simp only [if_true, reduceCtorEq, false_iff, not_and]
+      intro he; cases he; simp [hh]
+    | false =>
+      simp only [Bool.false_eq_true, if_false]
+      constructor
+      · intro he; cases he; exact ⟨rfl, hh⟩
+      · rintro ⟨he, _⟩; cases he; rfl
+
+theorem structField_error_passes {fs : List FieldDecl} {a : FieldArg} {e : FieldErr}
+    (h : checkField fs a = .error e) : structField fs a = .error e := by
+  simp [structField, h]
+
+theorem structField_hidden {fs : List FieldDecl} {s : String} {f : FieldDecl}
+    (hnd : (fs.map (·.name)).Nodup) (hf : f ∈ fs) (hn : f.name = s) (hb : s ≠ "_")
+    (hp : f.prevented = false) (hh : f.hidden = true) :
+    structField fs (.str s) = .error (.hidden s) := by
+  subst hn
+  simp [structField, checkField_found hnd hf hb hp, hh]
+
+theorem structField_found {fs : List FieldDecl} {f : FieldDecl}
+    (hnd : (fs.map (·.name)).Nodup) (hf : f ∈ fs) (hb : f.name ≠ "_") (hp : f.prevented = false)
+    (hh : f.hidden = false) : structField fs (.str f.name) = .ok f :=
+  structField_ok_iff.mpr ⟨checkField_found hnd hf hb hp, hh⟩
+
+theorem structField_ok_name {fs : List FieldDecl} {a : FieldArg} {f : FieldDecl}
+    (h : structField fs a = .ok f) :
+    a = FieldArg.str f.name ∧ f ∈ fs ∧ f.prevented = false ∧ f.name ≠ "_" ∧ f.hidden = false := by
+  obtain ⟨hc, hh⟩ := structField_ok_iff.mp h
+  obtain ⟨h1, h2, h3, h4⟩ := checkField_ok_name hc
+  exact ⟨h1, h2, h3, h4, hh⟩
+
 /-! ## `structArgs`, `structProviderArgs`, `fieldsOfArgs` -/
 
-theorem structArgs_star (fs : List FieldDecl) :
-    structArgs fs [.str "*"] = .ok (fs.filter (fun f => !f.prevented && f.name != "_")) := by
-  have : allFields [.str "*"] = true := by decide
-  simp [structArgs, this]
+/-- `f` is selected by `"*"` and cannot be set -/
+def starHidden (f : FieldDecl) : Bool := (!f.prevented && f.name != "_") && f.hidden
+
+theorem starHidden_iff {f : FieldDecl} :
+    starHidden f = true ↔ f.prevented = false ∧ f.name ≠ "_" ∧ f.hidden = true := by
+  simp [starHidden, and_assoc]
+
+theorem structArgs_star_eq (fs : List FieldDecl) :
+    structArgs fs [.str "*"] =
+      match fs.find? starHidden with
+      | some f => .error (.hidden f.name)
+      | none => .ok (fs.filter (fun f => !f.prevented && f.name != "_")) := by
+  have h : allFields [.str "*"] = true := by decide
+  have hf : (fs.filter (fun f => !f.prevented && f.name != "_")).find? (·.hidden) = fs.find? starHidden := by
+    rw [List.find?_filter]
+    congr 1; funext a
+    cases hp : (!a.prevented && a.name != "_") <;> cases hh : a.hidden <;> simp [starHidden, hp, hh]
+  unfold structArgs
+  rw [if_pos h]
+  show (match (fs.filter (fun f : FieldDecl => !f.prevented && f.name != "_")).find? (·.hidden) with
+    | some f => Except.error (FieldErr.hidden f.name)
+    | none => Except.ok (fs.filter (fun f : FieldDecl => !f.prevented && f.name != "_"))) = _
+  rw [hf]
+
+theorem structArgs_star {fs sel : List FieldDecl} :
+    structArgs fs [.str "*"] = .ok sel ↔
+      sel = fs.filter (fun f => !f.prevented && f.name != "_") ∧ ∀ f ∈ sel, f.hidden = false := by
+  rw [structArgs_star_eq]
+  cases hfind : fs.find? starHidden with
+  | none =>
+    simp only []
+    have hnone : ∀ f ∈ fs.filter (fun f => !f.prevented && f.name != "_"), f.hidden = false := by
+      intro f hf
+      obtain ⟨hfs, hsel⟩ := List.mem_filter.mp hf
+      have := List.find?_eq_none.mp hfind f hfs
+      cases hh : f.hidden with
+      | false => rfl
+      | true => exact absurd (by simp only [starHidden, hsel, hh, Bool.and_self]) this
+    constructor
+    · intro he; cases he; exact ⟨rfl, hnone⟩
+    · rintro ⟨rfl, _⟩; rfl
+  | some g =>
+    simp only [reduceCtorEq, false_iff, not_and]
+    rintro rfl hall
+    have hg := List.mem_of_find?_eq_some hfind
+    obtain ⟨hp, hb, hh⟩ := starHidden_iff.mp (List.find?_some hfind)
+    have : g ∈ fs.filter (fun f => !f.prevented && f.name != "_") := by
+      simp [List.mem_filter, hg, hp, hb]
+    rw [hall g this] at hh
+    cases hh
+
+/-- `"*"` fails exactly on the first field (declaration order) it stands for that cannot be set -/
+theorem structArgs_star_error {fs : List FieldDecl} {e : FieldErr} :
+    structArgs fs [.str "*"] = .error e ↔
+      ∃ pre f post, fs = pre ++ f :: post ∧
+        (f.prevented = false ∧ f.name ≠ "_" ∧ f.hidden = true) ∧
+        (∀ g ∈ pre, g.prevented = false → g.name ≠ "_" → g.hidden = false) ∧
+        e = .hidden f.name := by
+  rw [structArgs_star_eq]
+  constructor
+  · intro h
+    cases hfind : fs.find? starHidden with
+    | none => rw [hfind] at h; cases h
+    | some f =>
+      rw [hfind] at h
+      cases h
+      obtain ⟨hf, pre, post, hfs, hpre⟩ := List.find?_eq_some_iff_append.mp hfind
+      refine ⟨pre, f, post, hfs, starHidden_iff.mp hf, ?_, rfl⟩
+      intro g hg hp hb
+      cases hh : g.hidden with
+      | false => rfl
+      | true =>
+        have := hpre g hg
+        rw [starHidden_iff.mpr ⟨hp, hb, hh⟩] at this
+        cases this
+  · rintro ⟨pre, f, post, hfs, hf, hpre, rfl⟩
+    have : fs.find? starHidden = some f := by
+      refine List.find?_eq_some_iff_append.mpr ⟨starHidden_iff.mpr hf, pre, post, hfs, ?_⟩
+      intro g hg
+      cases hs : starHidden g with
+      | false => rfl
+      | true =>
+        obtain ⟨hp, hb, hh⟩ := starHidden_iff.mp hs
+        rw [hpre g hg hp hb] at hh
+        cases hh
+    rw [this]
+
+theorem structArgs_star_hidden {fs : List FieldDecl}
+    (h : ∃ f ∈ fs, f.prevented = false ∧ f.name ≠ "_" ∧ f.hidden = true) :
+    ∃ n, structArgs fs [.str "*"] = .error (.hidden n) := by
+  obtain ⟨f, hf, hsel⟩ := h
+  rw [structArgs_star_eq]
+  cases hfind : fs.find? starHidden with
+  | none => exact absurd (starHidden_iff.mpr hsel) (List.find?_eq_none.mp hfind f hf)
+  | some g => exact ⟨g.name, rfl⟩
 
 theorem structArgs_star_sound {fs sel : List FieldDecl} (h : structArgs fs [.str "*"] = .ok sel) :
-    ∀ f ∈ sel, f ∈ fs ∧ f.prevented = false ∧ f.name ≠ "_" := by
-  rw [structArgs_star] at h
-  cases h
+    ∀ f ∈ sel, f ∈ fs ∧ f.prevented = false ∧ f.name ≠ "_" ∧ f.hidden = false := by
+  obtain ⟨hsel, hhid⟩ := structArgs_star.mp h
   intro f hf
-  simpa [List.mem_filter] using hf
+  have hf' := hf
+  rw [hsel] at hf'
+  have : f ∈ fs ∧ f.prevented = false ∧ f.name ≠ "_" := by simpa [List.mem_filter] using hf'
+  exact ⟨this.1, this.2.1, this.2.2, hhid f hf⟩
 
 theorem structArgs_star_complete {fs sel : List FieldDecl} (h : structArgs fs [.str "*"] = .ok sel) :
     ∀ f ∈ fs, f.prevented = false → f.name ≠ "_" → f ∈ sel := by
-  rw [structArgs_star] at h
-  cases h
+  obtain ⟨rfl, _⟩ := structArgs_star.mp h
   intro f hf hp hb
   simp [List.mem_filter, hf, hp, hb]
 
 theorem structArgs_star_order {fs sel : List FieldDecl} (h : structArgs fs [.str "*"] = .ok sel) :
     sel.Sublist fs := by
-  rw [structArgs_star] at h
-  cases h
+  obtain ⟨rfl, _⟩ := structArgs_star.mp h
   exact List.filter_sublist
 
 theorem structArgs_named {fs : List FieldDecl} {args : List FieldArg} {sel : List FieldDecl}
     (hall : allFields args = false) (h : structArgs fs args = .ok sel) :
     sel.length = args.length ∧ ∀ (i : Nat) a f, args[i]? = some a → sel[i]? = some f →
-      a = FieldArg.str f.name ∧ f ∈ fs ∧ f.prevented = false ∧ f.name ≠ "_" := by
-  simp only [structArgs, hall] at h
-  exact mapM_checkField_spec h
+      a = FieldArg.str f.name ∧ f ∈ fs ∧ f.prevented = false ∧ f.name ≠ "_" ∧ f.hidden = false := by
+  simp only [structArgs, hall, Bool.false_eq_true, if_false] at h
+  obtain ⟨h1, h2⟩ := mapM_ok_get _ _ _ h
+  exact ⟨h1, fun i a f ha hf => structField_ok_name (h2 i a f ha hf)⟩
+
+theorem allFields_iff {args : List FieldArg} : allFields args = true ↔ args = [.str "*"] := by
+  simp [allFields]
+
+/-- whatever the arguments: an accepted `wire.Struct` never sets a field its package cannot name -/
+theorem structArgs_never_hidden {fs : List FieldDecl} {args : List FieldArg} {sel : List FieldDecl}
+    (h : structArgs fs args = .ok sel) : ∀ f ∈ sel, f.hidden = false := by
+  cases hall : allFields args with
+  | true =>
+    rw [allFields_iff.mp hall] at h
+    exact (structArgs_star.mp h).2
+  | false =>
+    simp only [structArgs, hall, Bool.false_eq_true, if_false] at h
+    intro f hf
+    obtain ⟨a, _, ha⟩ := mapM_ok_mem _ _ _ h f hf
+    exact (structField_ok_name ha).2.2.2.2
+
+theorem structArgs_hidden_rejected {fs : List FieldDecl} {args : List FieldArg} {s : String} {f : FieldDecl}
+    (hall : allFields args = false) (ha : FieldArg.str s ∈ args) (hb : s ≠ "_")
+    (hnd : (fs.map (·.name)).Nodup) (hf : f ∈ fs) (hn : f.name = s)
+    (hp : f.prevented = false) (hh : f.hidden = true) :
+    ∃ e, structArgs fs args = .error e := by
+  simp only [structArgs, hall, Bool.false_eq_true, if_false]
+  exact mapM_error_of_mem _ _ _ ha ⟨_, structField_hidden hnd hf hn hb hp hh⟩
+
+/-- when the hidden field is the first argument that fails, it is the one reported -/
+theorem structArgs_hidden_first {fs : List FieldDecl} {pre post : List FieldArg} {s : String} {f : FieldDecl}
+    (hall : allFields (pre ++ .str s :: post) = false)
+    (hpre : ∀ a ∈ pre, ∃ g, structField fs a = .ok g) (hb : s ≠ "_")
+    (hnd : (fs.map (·.name)).Nodup) (hf : f ∈ fs) (hn : f.name = s)
+    (hp : f.prevented = false) (hh : f.hidden = true) :
+    structArgs fs (pre ++ .str s :: post) = .error (.hidden s) := by
+  simp only [structArgs, hall, Bool.false_eq_true, if_false]
+  exact mapM_error_first _ _ _ _ _ hpre (structField_hidden hnd hf hn hb hp hh)
 
 theorem checkField_rejects {fs : List FieldDecl} {a : FieldArg}
     (h : a = .other ∨ ∃ s, a = .str s ∧ (s = "_" ∨ (∀ f ∈ fs, f.name ≠ s) ∨
@@ -224,13 +415,31 @@ theorem checkField_rejects {fs : List FieldDecl} {a : FieldArg}
     · exact ⟨_, checkField_unknown (.inl hb)⟩
     · exact ⟨_, checkField_prevented hnd hf hn hb hp⟩
 
+theorem structField_rejects {fs : List FieldDecl} {a : FieldArg}
+    (h : a = .other ∨ ∃ s, a = .str s ∧ (s = "_" ∨ (∀ f ∈ fs, f.name ≠ s) ∨
+      (∃ f ∈ fs, f.name = s ∧ f.prevented ∧ (fs.map (·.name)).Nodup) ∨
+      (∃ f ∈ fs, f.name = s ∧ f.hidden ∧ (fs.map (·.name)).Nodup))) :
+    ∃ e, structField fs a = .error e := by
+  rcases h with rfl | ⟨s, rfl, hb | h | h | ⟨f, hf, hn, hh, hnd⟩⟩
+  · exact ⟨_, structField_error_passes rfl⟩
+  · exact ⟨_, structField_error_passes (checkField_unknown (.inl hb))⟩
+  · exact ⟨_, structField_error_passes (checkField_unknown (.inr h))⟩
+  · obtain ⟨e, he⟩ := checkField_rejects (fs := fs) (a := .str s) (.inr ⟨s, rfl, .inr (.inr h)⟩)
+    exact ⟨e, structField_error_passes he⟩
+  · by_cases hb : s = "_"
+    · exact ⟨_, structField_error_passes (checkField_unknown (.inl hb))⟩
+    · cases hp : f.prevented with
+      | true => exact ⟨_, structField_error_passes (checkField_prevented hnd hf hn hb hp)⟩
+      | false => exact ⟨_, structField_hidden hnd hf hn hb hp hh⟩
+
 theorem structArgs_rejects {fs : List FieldDecl} {args : List FieldArg} {a : FieldArg}
     (hall : allFields args = false) (ha : a ∈ args)
     (h : a = .other ∨ ∃ s, a = .str s ∧ (s = "_" ∨ (∀ f ∈ fs, f.name ≠ s) ∨
-      ∃ f ∈ fs, f.name = s ∧ f.prevented ∧ (fs.map (·.name)).Nodup)) :
+      (∃ f ∈ fs, f.name = s ∧ f.prevented ∧ (fs.map (·.name)).Nodup) ∨
+      (∃ f ∈ fs, f.name = s ∧ f.hidden ∧ (fs.map (·.name)).Nodup))) :
     ∃ e, structArgs fs args = .error e := by
-  simp only [structArgs, hall]
-  exact mapM_error_of_mem _ _ a ha (checkField_rejects h)
+  simp only [structArgs, hall, Bool.false_eq_true, if_false]
+  exact mapM_error_of_mem _ _ a ha (structField_rejects h)
 
 theorem structProviderArgs_ok_iff {fs : List FieldDecl} {args : List FieldArg} {sel : List FieldDecl} :
     structProviderArgs fs args = .ok sel ↔ structArgs fs args = .ok sel ∧ (sel.map (·.ty)).Nodup := by
@@ -258,6 +467,10 @@ theorem structProviderArgs_types_nodup {fs : List FieldDecl} {args : List FieldA
 theorem structProviderArgs_sub {fs : List FieldDecl} {args : List FieldArg} {sel : List FieldDecl}
     (h : structProviderArgs fs args = .ok sel) : structArgs fs args = .ok sel :=
   (structProviderArgs_ok_iff.mp h).1
+
+theorem structProviderArgs_never_hidden {fs : List FieldDecl} {args : List FieldArg} {sel : List FieldDecl}
+    (h : structProviderArgs fs args = .ok sel) : ∀ f ∈ sel, f.hidden = false :=
+  structArgs_never_hidden (structProviderArgs_sub h)
 
 theorem structProviderArgs_dup_rejected {fs : List FieldDecl} {args : List FieldArg} {sel : List FieldDecl}
     (h : structArgs fs args = .ok sel) (hd : ¬ (sel.map (·.ty)).Nodup) :
